@@ -1,4 +1,5 @@
 pub mod astgen;
+pub mod cli;
 pub mod engine;
 pub mod junkgen;
 pub mod pools;
